@@ -1,3 +1,5 @@
+#[cfg(flounder_verif)]
+use crate::verif_seam::rand_shim as rand;
 use rand::Rng;
 
 use crate::bitboard::{BitboardIterator, SQUARES};
